@@ -1,1 +1,124 @@
-//! Reference models for the scan monitors.
+//! Reference model of the pbulk-index record format (C16), written from the
+//! property statement.
+//!
+//! The generator (`gen::scan`) emits *semantic* lines together with their
+//! rendered text; this model folds the semantic lines into the records the
+//! statement demands: one record per `PKGNAME=` line, each built only from
+//! the lines between its `PKGNAME=` line and the next, scalar fields = the
+//! trimmed value of the last line for the key, list fields = the
+//! whitespace-separated items in order, absent keys None / empty, everything
+//! else ignored; the read fails as a whole if a block lacks PKGNAME, an
+//! ALL_DEPENDS item or PKG_LOCATION is invalid.
+
+/// The ten plain string fields, in the order of `ExpRec::scalars`.
+pub const SCALARS: [&str; 10] = [
+    "PKG_SKIP_REASON",
+    "PKG_FAIL_REASON",
+    "NO_BIN_ON_FTP",
+    "RESTRICTED",
+    "CATEGORIES",
+    "MAINTAINER",
+    "USE_DESTDIR",
+    "BOOTSTRAP_PKG",
+    "USERGROUP_PHASE",
+    "PBULK_WEIGHT",
+];
+
+/// Meaning of one input line.
+#[derive(Clone, Debug, PartialEq)]
+pub enum Sem {
+    /// `PKGNAME=<value>`: starts a record.
+    Pkgname(String),
+    /// One of `SCALARS` with its (already trimmed) value.
+    Scalar(usize, String),
+    /// `PKG_LOCATION=<value>`; `valid` is what the generator intended.
+    Location { value: String, valid: bool },
+    /// `ALL_DEPENDS=<items>`; `bad` = index of the one invalid item, if any.
+    AllDepends { items: Vec<String>, bad: Option<usize> },
+    ScanDepends(Vec<String>),
+    MultiVersion(Vec<String>),
+    /// Blank line, unknown key, or a line without `=`.
+    Ignored,
+}
+
+#[derive(Clone, Debug, Default, PartialEq)]
+pub struct ExpRec {
+    pub pkgname: String,
+    pub location: Option<String>,
+    pub all_depends: Vec<String>,
+    pub scalars: [Option<String>; 10],
+    pub scan_depends: Vec<String>,
+    pub multi_version: Vec<String>,
+    loc_bad: bool,
+    dep_bad: bool,
+}
+
+#[derive(Clone, Copy, Debug, PartialEq, Eq)]
+pub enum Fault {
+    /// A known key occurs in a block without a `PKGNAME=` line.
+    MissingPkgname,
+    BadDepend,
+    BadLocation,
+}
+
+impl Fault {
+    pub fn name(self) -> &'static str {
+        match self {
+            Fault::MissingPkgname => "missing_pkgname",
+            Fault::BadDepend => "bad_depend",
+            Fault::BadLocation => "bad_location",
+        }
+    }
+}
+
+/// What the statement says the reader must return for these lines.
+pub fn model(lines: &[Sem]) -> Result<Vec<ExpRec>, Fault> {
+    let mut out: Vec<ExpRec> = vec![];
+    let mut orphan = false;
+    for l in lines {
+        if let Sem::Pkgname(v) = l {
+            out.push(ExpRec { pkgname: v.clone(), ..Default::default() });
+            continue;
+        }
+        if *l == Sem::Ignored {
+            continue;
+        }
+        let Some(cur) = out.last_mut() else {
+            // a field line that belongs to no PKGNAME= line
+            orphan = true;
+            continue;
+        };
+        match l {
+            Sem::Scalar(k, v) => cur.scalars[*k] = Some(v.clone()),
+            Sem::Location { value, valid } => {
+                cur.location = Some(value.clone());
+                cur.loc_bad = !*valid;
+            }
+            Sem::AllDepends { items, bad } => {
+                cur.all_depends = items.clone();
+                cur.dep_bad = bad.is_some();
+            }
+            Sem::ScanDepends(items) => cur.scan_depends = items.clone(),
+            Sem::MultiVersion(items) => cur.multi_version = items.clone(),
+            Sem::Pkgname(_) | Sem::Ignored => {}
+        }
+    }
+    if orphan {
+        return Err(Fault::MissingPkgname);
+    }
+    for r in &out {
+        if r.dep_bad {
+            return Err(Fault::BadDepend);
+        }
+        if r.loc_bad {
+            return Err(Fault::BadLocation);
+        }
+    }
+    Ok(out)
+}
+
+/// Number of refills a block reader with a `bufsize`-byte window needs to
+/// deliver `len` bytes and then report end of input.
+pub fn fills_needed(len: usize, bufsize: usize) -> usize {
+    (len + bufsize - 1) / bufsize + 1
+}
